@@ -127,6 +127,11 @@ def destroy_then_fail_rule(prog, rep, only_files=None):
                 hit = [r for r in fails if r.block.id in reach]
                 if old and hit:
                     key = (f.name, c.callee)
+                    if key not in DESTROY_EXCEPTIONS and (f.name, "free") in DESTROY_EXCEPTIONS:
+                        # the same release made through a new helper (a static function the pinned tree does not have)
+                        from .. import inline as _inl
+                        if c.callee not in _inl.reference().get(f.file, set()):
+                            key = (f.name, "free")
                     if key in DESTROY_EXCEPTIONS:
                         rep.unknown("ATOMIC", "%s in %s" % (c.text[:50], f.name), c.where, "frozen exception: " + DESTROY_EXCEPTIONS[key])
                         continue
